@@ -1,5 +1,6 @@
 import BreezyVerif.Common
 import BreezyVerif.Model.C22
+import BreezyVerif.Model.C22Remote
 /-
 C22 driver.  Requests (fields separated by one space):
 
@@ -14,6 +15,12 @@ strings travel as hex of their ASCII bytes (`-` = empty)
 ops:  info | lh | getrevid <int> | id2revno <hexid> | map | d2id <i.i.i> | id2d <hexid>
       | iter <hexid|~> <hexid|~> <e|i|w|n> <r|f> | spec <hexspec>
       | flm <hexid> | lca <rev> <rev>
+      | rgetrevid <T|F> <chain> <int> | rd2id <T|F> <chain> <i.i.i>        (RemoteBranch on a stacking chain)
+      | rid2revno <chain> <hexid> | rid2d <chain> <hexid>
+      | covers <T|F> <chain>
+
+chain  = repositories joined by `|`, the stacked one first; a repository = the revisions it stores itself
+         joined by `,` (`-` = none)
 -/
 namespace BreezyVerif.C22
 
@@ -74,6 +81,13 @@ def parseRule (s : String) : Option StopRule :=
 
 def parseDotted (s : String) : Option (List Int) := (s.splitOn ".").mapM String.toInt?
 
+def parseChain (s : String) : Option (List (List Nat)) := (s.splitOn "|").mapM parseNatList
+
+def showAnswer {α : Type} (f : α → String) : Answer α → String
+  | .ok a => f a
+  | .refused => "E:Refused"
+  | .error e => e.toString
+
 def handleB (b : Branch) : List String → String
   | ["info"] => s!"{b.lastRevno} {showRevId b.lastRevision}"
   | ["lh"] => joinList (b.history.map toString)
@@ -104,6 +118,26 @@ def handleB (b : Branch) : List String → String
     match asciiOfHex h with
     | some s => showExcept showInfo (b.inHistory s) ++ " " ++ showExcept showRevId (b.asRevisionId s)
     | none => "bad-op"
+  | ["rgetrevid", fx, chain, n] =>
+    match parseBool fx, parseChain chain, n.toInt? with
+    | some fx, some chain, some n => if chain.isEmpty then "bad-op" else showExcept showRevId (remoteGetRevId fx b chain n)
+    | _, _, _ => "bad-op"
+  | ["rd2id", fx, chain, d] =>
+    match parseBool fx, parseChain chain, parseDotted d with
+    | some fx, some chain, some d => if chain.isEmpty then "bad-op" else showExcept showRevId (remoteDottedToRevId fx b chain d)
+    | _, _, _ => "bad-op"
+  | ["rid2revno", chain, id] =>
+    match parseChain chain, parseId id with
+    | some (R :: _), some id => showAnswer toString (remoteRevIdToRevno b R id)
+    | _, _ => "bad-op"
+  | ["rid2d", chain, id] =>
+    match parseChain chain, parseId id with
+    | some (R :: _), some id => showAnswer showInts (remoteRevIdToDotted b R id)
+    | _, _ => "bad-op"
+  | ["covers", fx, chain] =>
+    match parseBool fx, parseChain chain with
+    | some fx, some chain => showBool (chainCovers fx b.g chain b.history)
+    | _, _ => "bad-op"
   | ["flm", id] =>
     match parseId id with
     | some id => (match findLefthandMerger b id with | some r => showRevId r | none => "~")
